@@ -549,10 +549,14 @@ func (r *Runner) finish(st *State, f *Frame, rv []Val, pos token.Pos) {
 		}
 	}
 	env.old = r.entryShadow(st, f)
+	if len(st.frames) == 1 {
+		r.curRets = rv
+	}
 	for _, c := range sp.Ensures {
 		g := env.EvalBool(c.E, st)
 		r.oblige(st, "post", c.Label, g, pos)
 	}
+	r.curRets = nil
 	// nogo[label]: no goroutine was started on this path (the work is done in the caller's goroutine)
 	if sp.NoGo != "" {
 		g := True
